@@ -27,6 +27,12 @@ thread_local! {
     /// that the real double free reaches Miri / memcheck / ASan.
     static PROTECT: Cell<bool> = const { Cell::new(true) };
     static DROPPED: RefCell<std::collections::HashSet<u32>> = RefCell::new(std::collections::HashSet::new());
+    /// `Tok::clone` panics when asked to clone the element with this id (panic-safety workloads)
+    static PANIC_ON_CLONE: Cell<Option<u32>> = const { Cell::new(None) };
+}
+
+pub fn set_panic_on_clone(id: Option<u32>) {
+    PANIC_ON_CLONE.with(|p| p.set(id));
 }
 
 pub fn set_protect(on: bool) {
@@ -98,6 +104,9 @@ impl std::fmt::Debug for Tok {
 
 impl Clone for Tok {
     fn clone(&self) -> Tok {
+        if PANIC_ON_CLONE.with(|p| p.get()) == Some(self.id) {
+            panic!("Tok::clone: injected panic for id {}", self.id);
+        }
         let id = NEXT_CLONE_ID.with(|c| {
             let v = c.get();
             c.set(v + 1);
@@ -112,6 +121,13 @@ impl Drop for Tok {
     fn drop(&mut self) {
         let first = DROPPED.with(|d| d.borrow_mut().insert(self.id));
         let protect = PROTECT.with(|p| p.get());
+        if protect && (self.payload != payload_for(self.id)) {
+            // not a value this ledger created (e.g. an uninitialised slot being dropped): record it and
+            // do not touch the heap guard, so that a native run survives to report it
+            log(Ev::Corrupt(self.id));
+            log(Ev::Dropped(self.id));
+            return;
+        }
         if first || !protect {
             if self.payload != payload_for(self.id) {
                 log(Ev::Corrupt(self.id));
